@@ -130,12 +130,13 @@ def configure_v2(config: dict[str, Any]) -> None:
     # Handle non-orthogonality
 
     # If grid["filename"] is missing, use forcing["filename"]
-    if "module" not in config["grid"]:
+    # (a missing module is the default module for both)
+    if "module" not in config["grid"] and "module" in config["forcing"]:
         config["grid"]["module"] = config["forcing"]["module"]
     if "filename" not in config["grid"]:
         filename = Path(config["forcing"]["filename"])
         # glob if necessary and use first file
-        if ("*" in str(filename)) or ("?" in str(filename)):
+        if any(c in str(filename) for c in "*?["):
             directory = filename.parent
             flist = list(directory.glob(filename.name))
             if flist:
@@ -217,7 +218,7 @@ def configure_v1(config: dict[str, Any]) -> dict[str, Any]:
     if not conf2["grid"]["filename"] and conf2["forcing"]["filename"]:
         filename = Path(conf2["forcing"]["filename"])
         # glob if necessary and use first file
-        if ("*" in str(filename)) or ("?" in str(filename)):
+        if any(c in str(filename) for c in "*?["):
             directory = filename.parent
             filename = sorted(directory.glob(filename.name))[0]
         conf2["grid"]["filename"] = filename
